@@ -327,7 +327,7 @@ func x5CanonExpr(e *Expr, depth int) string {
 
 func c06R5(c *Ctx) {
 	const R = "C06-R5"
-	c.Doc(R, "server.acceptHeader and miekg/dns defaultMsgAcceptFunc are the same decision table over the header predicates (QR, opcode, the four counts) under the verdict mapping OK↔Accept, Ignore↔Ignore, NotImplemented↔RejectNotImplemented, FormatError↔Reject; every caller of acceptHeader compares the verdict with every acceptVerdict constant, reaches ServeRaw* on no non-OK edge, writes nothing on Ignore, and rejects in place on the other two; rejectInPlace echoes ID/opcode/RD with QR set and rcode ∈ {FORMERR, NOTIMP}; serveMsgBy answers QDCOUNT != 1 with FORMERR before the chain; the BADVERS and foreign-opcode arms of edns.ServeDNS never continue the chain; the wire branch is entered only for opcode 0 and EDNS version 0")
+	c.Doc(R, "server.acceptHeader and miekg/dns defaultMsgAcceptFunc are the same decision table over the header predicates (QR, opcode, the four counts) under the verdict mapping OK↔Accept, Ignore↔Ignore, NotImplemented↔RejectNotImplemented, FormatError↔Reject; every caller of acceptHeader compares the verdict with every acceptVerdict constant, reaches ServeRaw* on no non-OK edge, writes nothing on Ignore, and rejects in place on the other two; rejectInPlace echoes ID/opcode/RD with QR set and rcode ∈ {FORMERR, NOTIMP}; serveMsgBy answers QDCOUNT != 1 with FORMERR before the chain (or with nothing on the deny edge of the source gate, C17-R7); the BADVERS and foreign-opcode arms of edns.ServeDNS never continue the chain; the wire branch is entered only for opcode 0 and EDNS version 0")
 	ah := c.fn(R, "server.acceptHeader")
 	lib := c.fn(R, x5DnsPkg+".defaultMsgAcceptFunc")
 	verdictMap := map[string]string{"acceptOK": "MsgAccept", "acceptIgnore": "MsgIgnore", "acceptNotImplemented": "MsgRejectNotImplemented", "acceptFormatError": "MsgReject"}
@@ -474,10 +474,13 @@ func c06R5(c *Ctx) {
 			return OnCmp("len(r.Question)!=1", x5LenOf(FieldIs(qF)), token.NEQ, IsConstInt(1), holds)
 		}
 		c.MustCross(R, fn, "ch.Next", isCallTo(next), one(false))
+		// a source the access list excludes is dropped in silence instead (C17-R7): the
+		// deny edge of the source gate is the one way past the guard without a FORMERR
+		denied := OnFalse("AdmitsSource()", MethodNamed("AdmitsSource"))
 		c.AfterEdge(R, fn, "QDCOUNT != 1 returns without FORMERR", one(true), isReturn, Barrier{Name: "SetRcode(r, FORMERR)", Instr: func(in ssa.Instruction) bool {
 			return isPlainCallTo(setRcode)(in) && IsConstInt(1)(Desc(callArg(in, 2)))
-		}})
-		c.AfterEdge(R, fn, "QDCOUNT != 1 returns without a write", one(true), isReturn, Barrier{Name: "WriteMsg", Instr: func(in ssa.Instruction) bool { return x5MsgWriteArg(in) != nil }})
+		}}, denied)
+		c.AfterEdge(R, fn, "QDCOUNT != 1 returns without a write", one(true), isReturn, Barrier{Name: "WriteMsg", Instr: func(in ssa.Instruction) bool { return x5MsgWriteArg(in) != nil }}, denied)
 	}
 	// edns.ServeDNS: BADVERS, foreign opcode, wire-branch admission
 	version := c.fobj(R, x5DnsPkg+".(*OPT).Version")
